@@ -287,7 +287,7 @@ def run_snap_property(prop, tier, cfg, plans, rule, classify=None, second_proces
             vlib.rm(d)
         sres = validate(prop, steps_cfg, slines, v, drv, classify=classify, module="SnapSteps", require_repro=require_repro)
     st = summarize(res["stats"])
-    if st["records"] and st["valid"] < min_valid_frac * st["records"]:
+    if not v.violations and st["records"] and st["valid"] < min_valid_frac * st["records"]:   # (statistics are partial once a record has failed)
         raise Broken("generator degenerate: only %d of %d records are valid polygons" % (st["valid"], st["records"]))
     groups = len({json.loads(x)["g"] for x in lines})
     cov = {
